@@ -2335,3 +2335,182 @@ pub proof fn lemma_response_completable(s: Seq<u8>, multi: bool, san: bool, fold
         _ => { lemma_respc_el(s, multi, san, fold, sbf, ign, cap); }
     }
 }
+
+// ------------------------------------------------------------------------------------------------ C16: the header block is position-parametric
+// parse_headers(h) and the header part of a message whose start line `pre` precedes h: same result, offsets shifted by |pre|
+pub open spec fn sh_h(h: SHdr, d: int) -> SHdr { SHdr { name_lo: h.name_lo + d, name_hi: h.name_hi + d, val_lo: h.val_lo + d, val_hi: h.val_hi + d } }
+pub open spec fn sh_line(l: LineRes, d: int) -> LineRes {
+    match l {
+        LineRes::End(n) => LineRes::End(n + d),
+        LineRes::Header(h, n) => LineRes::Header(sh_h(h, d), n + d),
+        LineRes::Skip(n) => LineRes::Skip(n + d),
+        LineRes::Partial => LineRes::Partial,
+        LineRes::Err(e) => LineRes::Err(e),
+    }
+}
+pub open spec fn sh_acc(acc: Seq<SHdr>, d: int) -> Seq<SHdr> { Seq::new(acc.len(), |i: int| sh_h(acc[i], d)) }
+pub open spec fn sh_res(r: SRes<Seq<SHdr>>, d: int) -> SRes<Seq<SHdr>> {
+    match r {
+        SRes::Complete(hs, n) => SRes::Complete(sh_acc(hs, d), n + d),
+        SRes::Partial => SRes::Partial,
+        SRes::Err(e) => SRes::Err(e),
+    }
+}
+pub proof fn lemma_shift_index(pre: Seq<u8>, h: Seq<u8>)
+    ensures forall|k: int| 0 <= k < h.len() ==> #[trigger] (pre + h)[k + pre.len()] == h[k], (pre + h).len() == pre.len() + h.len(),
+{}
+pub proof fn lemma_first_not_shift(cls: spec_fn(u8) -> bool, pre: Seq<u8>, h: Seq<u8>, i: int)
+    requires 0 <= i <= h.len(),
+    ensures first_not(cls, pre + h, i + pre.len()) == first_not(cls, h, i) + pre.len()
+    decreases h.len() - i
+{
+    lemma_shift_index(pre, h);
+    if i < h.len() {
+        assert((pre + h)[i + pre.len()] == h[i]);
+        if cls(h[i]) { lemma_first_not_shift(cls, pre, h, i + 1); }
+    }
+}
+pub proof fn lemma_skip_shift(pre: Seq<u8>, h: Seq<u8>, q: int, e: Error)
+    requires 0 <= q <= h.len(),
+    ensures spec_skip(pre + h, q + pre.len(), e) == sh_line(spec_skip(h, q, e), pre.len() as int)
+    decreases h.len() - q
+{
+    lemma_shift_index(pre, h);
+    let d = pre.len() as int;
+    if q < h.len() {
+        assert((pre + h)[q + d] == h[q]);
+        if h[q] == 0x0d { if q + 1 < h.len() { assert((pre + h)[q + 1 + d] == h[q + 1]); } }
+        else if h[q] != 0x0a && h[q] != 0 { lemma_skip_shift(pre, h, q + 1, e); }
+    }
+}
+pub proof fn lemma_trim_end_shift(pre: Seq<u8>, h: Seq<u8>, lo: int, hi: int)
+    requires 0 <= lo, hi <= h.len(),
+    ensures trim_end(pre + h, lo + pre.len(), hi + pre.len()) == trim_end(h, lo, hi) + pre.len()
+    decreases hi - lo
+{
+    lemma_shift_index(pre, h);
+    if hi > lo {
+        assert((pre + h)[hi - 1 + pre.len()] == h[hi - 1]);
+        if is_ows(h[hi - 1]) { lemma_trim_end_shift(pre, h, lo, hi - 1); }
+    }
+}
+pub proof fn lemma_vlines_shift(pre: Seq<u8>, h: Seq<u8>, nlo: int, nhi: int, v0: int, from: int, cfg: HCfg)
+    requires 0 <= v0 <= from <= h.len(),
+    ensures spec_vlines(pre + h, nlo + pre.len(), nhi + pre.len(), v0 + pre.len(), from + pre.len(), cfg)
+        == sh_line(spec_vlines(h, nlo, nhi, v0, from, cfg), pre.len() as int)
+    decreases h.len() - from
+{
+    let d = pre.len() as int;
+    let u = pre + h;
+    lemma_shift_index(pre, h);
+    lemma_first_not_shift(cls_hval(), pre, h, from);
+    lemma_first_not_props(cls_hval(), h, from);
+    let e = first_not(cls_hval(), h, from);
+    if e < h.len() {
+        assert(u[e + d] == h[e]);
+        let n = if h[e] == 0x0a { e + 1 } else { e + 2 };
+        if h[e] == 0x0d && e + 1 < h.len() { assert(u[e + 1 + d] == h[e + 1]); }
+        if h[e] != 0x0d && h[e] != 0x0a { lemma_skip_shift(pre, h, e, Error::HeaderValue); }
+        else if !(h[e] == 0x0d && (e + 1 >= h.len() || h[e + 1] != 0x0a)) {
+            if n < h.len() { assert(u[n + d] == h[n]); }
+            if cfg.fold && n < h.len() && is_spht(h[n]) { lemma_vlines_shift(pre, h, nlo, nhi, v0, n, cfg); }
+            else { lemma_trim_end_shift(pre, h, v0, e); }
+        }
+    }
+}
+pub proof fn lemma_ws_shift(pre: Seq<u8>, h: Seq<u8>, nlo: int, nhi: int, c: int, cfg: HCfg)
+    requires 0 <= c <= h.len(),
+    ensures spec_ws(pre + h, nlo + pre.len(), nhi + pre.len(), c + pre.len(), cfg) == sh_line(spec_ws(h, nlo, nhi, c, cfg), pre.len() as int)
+    decreases h.len() - c
+{
+    let d = pre.len() as int;
+    let u = pre + h;
+    lemma_shift_index(pre, h);
+    if c < h.len() {
+        assert(u[c + d] == h[c]);
+        if is_spht(h[c]) { lemma_ws_shift(pre, h, nlo, nhi, c + 1, cfg); }
+        else if is_hval(h[c]) { lemma_vlines_shift(pre, h, nlo, nhi, c, c, cfg); }
+        else {
+            let n = if h[c] == 0x0a { c + 1 } else { c + 2 };
+            if h[c] == 0x0d && c + 1 < h.len() { assert(u[c + 1 + d] == h[c + 1]); }
+            if h[c] != 0x0d && h[c] != 0x0a { lemma_skip_shift(pre, h, c, Error::HeaderValue); }
+            else if !(h[c] == 0x0d && (c + 1 >= h.len() || h[c + 1] != 0x0a)) {
+                if n < h.len() { assert(u[n + d] == h[n]); }
+                if cfg.fold && n < h.len() && is_spht(h[n]) { lemma_ws_shift(pre, h, nlo, nhi, n, cfg); }
+            }
+        }
+    }
+}
+pub proof fn lemma_name_ws_shift(pre: Seq<u8>, h: Seq<u8>, nlo: int, nhi: int, q: int, cfg: HCfg)
+    requires 0 <= q <= h.len(),
+    ensures spec_name_ws(pre + h, nlo + pre.len(), nhi + pre.len(), q + pre.len(), cfg) == sh_line(spec_name_ws(h, nlo, nhi, q, cfg), pre.len() as int)
+    decreases h.len() - q
+{
+    let d = pre.len() as int;
+    let u = pre + h;
+    lemma_shift_index(pre, h);
+    if q < h.len() {
+        assert(u[q + d] == h[q]);
+        if !is_spht(h[q]) { if cfg.ignore { lemma_skip_shift(pre, h, q, Error::HeaderName); } }
+        else if q + 1 < h.len() {
+            assert(u[q + 1 + d] == h[q + 1]);
+            if h[q + 1] == 0x3a { lemma_ws_shift(pre, h, nlo, nhi, q + 2, cfg); } else { lemma_name_ws_shift(pre, h, nlo, nhi, q + 1, cfg); }
+        }
+    }
+}
+pub proof fn lemma_line_shift(pre: Seq<u8>, h: Seq<u8>, p: int, first: bool, cfg: HCfg)
+    requires 0 <= p <= h.len(),
+    ensures spec_line(pre + h, p + pre.len(), first, cfg) == sh_line(spec_line(h, p, first, cfg), pre.len() as int)
+{
+    let d = pre.len() as int;
+    let u = pre + h;
+    lemma_shift_index(pre, h);
+    if p < h.len() {
+        assert(u[p + d] == h[p]);
+        if h[p] == 0x0d { if p + 1 < h.len() { assert(u[p + 1 + d] == h[p + 1]); } }
+        else if h[p] == 0x0a { }
+        else if !is_tchar(h[p]) {
+            if !(cfg.sp_before_first && first && is_spht(h[p])) && cfg.ignore { lemma_skip_shift(pre, h, p, Error::HeaderName); }
+        } else {
+            lemma_first_not_shift(cls_tchar(), pre, h, p);
+            lemma_first_not_props(cls_tchar(), h, p);
+            let e = first_not(cls_tchar(), h, p);
+            if e < h.len() {
+                assert(u[e + d] == h[e]);
+                if h[e] == 0x3a { lemma_ws_shift(pre, h, p, e, e + 1, cfg); }
+                else if cfg.sp_after_name { lemma_name_ws_shift(pre, h, p, e, e, cfg); }
+                else if cfg.ignore { lemma_skip_shift(pre, h, e, Error::HeaderName); }
+            }
+        }
+    }
+}
+// @tags C16
+pub proof fn lemma_hdrs_shift(pre: Seq<u8>, h: Seq<u8>, p: int, acc: Seq<SHdr>, cfg: HCfg, cap: int)
+    requires 0 <= p <= h.len(),
+    ensures spec_hdrs(pre + h, p + pre.len(), sh_acc(acc, pre.len() as int), cfg, cap) == sh_res(spec_hdrs(h, p, acc, cfg, cap), pre.len() as int)
+    decreases h.len() - p
+{
+    let d = pre.len() as int;
+    lemma_line_progress(h, p, acc.len() == 0, cfg);
+    lemma_line_shift(pre, h, p, acc.len() == 0, cfg);
+    lemma_line_progress(pre + h, p + d, acc.len() == 0, cfg);
+    assert(sh_acc(acc, d).len() == acc.len());
+    match spec_line(h, p, acc.len() == 0, cfg) {
+        LineRes::Header(x, n) => {
+            if acc.len() < cap {
+                assert(sh_acc(acc, d).push(sh_h(x, d)) =~= sh_acc(acc.push(x), d));
+                lemma_hdrs_shift(pre, h, n, acc.push(x), cfg, cap);
+            }
+        }
+        LineRes::Skip(n) => { lemma_hdrs_shift(pre, h, n, acc, cfg, cap); }
+        _ => {}
+    }
+}
+// the statement of C16's second sentence: the header block of a message whose start line is `pre` = parse_headers(h) shifted
+// @tags C16
+pub proof fn lemma_parse_headers_agrees(pre: Seq<u8>, h: Seq<u8>, cfg: HCfg, cap: int)
+    ensures spec_hdrs(pre + h, pre.len() as int, Seq::empty(), cfg, cap) == sh_res(spec_hdrs(h, 0, Seq::empty(), cfg, cap), pre.len() as int)
+{
+    lemma_hdrs_shift(pre, h, 0, Seq::empty(), cfg, cap);
+    assert(sh_acc(Seq::<SHdr>::empty(), pre.len() as int) =~= Seq::<SHdr>::empty());
+}
